@@ -1,7 +1,7 @@
 (* C13 - restart resumes from the newest completed checkpoint; retention keeps it.  Statements only.
    Models: Model/PathSeg.v (pathSegment / idFromPathSegment at byte level, listing order, LoadCheckpoint's
    choice), Model/Publish.v (the individually schedulable steps of overlapping publications, crash, restart). *)
-From RV Require Import Base.Mach Base.Bytes Model.PathSeg Model.Publish Proofs.C13_PathSeg.
+From RV Require Import Base.Mach Base.Bytes Model.PathSeg Model.Publish Proofs.C13_PathSeg Proofs.C13_Publish.
 Open Scope N_scope.
 
 (* idFromPathSegment inverts pathSegment for every 64-bit id (base64url modelled exactly) *)
@@ -32,3 +32,50 @@ Print Assumptions load_first_listed_refuted.
 
 Example listing_of_1_to_6 : listing [1; 2; 3; 4; 5; 6] = [2; 1; 6; 5; 4; 3].
 Proof. vm_compute. reflexivity. Qed.
+
+(* publication, cleanup and notification: for EVERY schedule of the steps of arbitrarily many overlapping
+   publications (Start / W / U / R / TL / TR of Model/Publish.v, disabled steps are no-ops) with crashes and
+   restarts anywhere, starting from a storage that holds checkpoint [base] (0 = empty), at EVERY point:
+   - the snapshot file of the newest checkpoint ever written is in storage, and no spawned Remove call names it;
+   - LoadCheckpoint on the storage as it is now returns exactly that checkpoint (crash point = now);
+   - the retained-id notifications received so far are strictly increasing, name only written checkpoints, and
+     the one about to be delivered is newer than all of them. *)
+Theorem publish_keeps_newest : forall base sched, base <= max64 ->
+  let s := exec prepaired (boot prepaired base) sched in
+  (written s = [] \/ In (list_max (written s)) (files s)) /\
+  load false (files s) = match written s with [] => None | _ => Some (list_max (written s)) end /\
+  (forall ids i, In ids (pend_rm s) -> In i ids -> i < list_max (written s)) /\
+  completed (exec1 prepaired s Crash) = match written s with [] => [] | _ => [list_max (written s)] end /\
+  incr (received s) /\
+  (forall r, In r (received s) -> In r (written s)) /\
+  (forall h, nhold s = Some h -> (forall r, In r (received s) -> r < h) /\ In h (written s)).
+Proof.
+  intros base sched Hb s.
+  destruct (newest_kept_and_loaded base sched Hb) as (A1 & A2 & A3).
+  destruct (notifications_increase base sched Hb) as (B1 & B2 & B3).
+  repeat split; try assumption.
+  - exact (crash_resumes base sched Hb).
+  - exact (proj1 (B3 h H)).
+  - exact (proj2 (B3 h H)).
+Qed.
+Print Assumptions publish_keeps_newest.
+
+(* D17 (repaired by a fix: commit): without the id guard a delayed publication deletes the newest file and
+   an older id is announced after a newer one *)
+Theorem unguarded_publication_refuted :
+  exists sched, let s := exec (MkPQ false true) (boot (MkPQ false true) 0) sched in
+    ~ In (list_max (written s)) (files s) /\ ~ incr (received s).
+Proof. exact d17_refutes. Qed.
+Print Assumptions unguarded_publication_refuted.
+
+(* non-vacuity: the same schedule on the repaired model keeps checkpoint 3 and announces only [3] *)
+Example d17_schedule_repaired :
+  let s := exec prepaired (boot prepaired 0) d17_schedule in
+  files s = [2; 3; 1] /\ received s = [3] /\ completed s = [3].
+Proof. exact d17_repaired. Qed.
+
+(* operator side (modelled only): RetainOnly with a notification [n], however late it arrives, keeps the
+   operator's newest checkpoint *)
+Theorem retain_only_keeps_newest : forall n l, In n l -> In (list_max l) (retain_only [n] l).
+Proof. exact retain_only_keeps_newest_lemma. Qed.
+Print Assumptions retain_only_keeps_newest.
